@@ -135,8 +135,49 @@ def zero_sized():
     return Z
 
 
+def const_array_templates():
+    """(id, builder() -> Program) : arrays whose size is a constant and whose elements are aggregates, in every annotation
+    position (parameter, result, let, struct field, loop). Fully annotated: must be accepted, compiled and right."""
+    S = TStruct("S", [("a", U8), ("b", BOOL)])
+    E = TEnum("E", [("A", []), ("B", [U8])])
+    T2 = TTup([U8, BOOL])
+    out = []
+    for n in (2, 3):
+        consts = [("N", USIZE, "%dusize" % n)]
+        for ename, et in (("struct", S), ("enum", E), ("tuple", T2), ("u16", U16)):
+            structs = [S] if et is S else []
+            enums = [E] if et is E else []
+            at = TArrC(et, n, "N")
+            xs, i, x = Var("xs", at), Var("i", USIZE), Var("x", et)
+
+            def proj(e, et=et):
+                if et is S:
+                    return Field(e, "a")
+                if et is E:
+                    return Match(e, [(PEnum(E, "B", [PVar("v")]), Var("v", U8)), (PEnum(E, "A", []), Lit(U8, 7))], U8)
+                if et is T2:
+                    return TupGet(e, 0)
+                return Cast(e, U8)
+
+            def P(fns_main, structs=structs, enums=enums, consts=consts):
+                return Program([fns_main], list(structs), list(enums), list(consts))
+            tid = "const-array-%s-%d" % (ename, n)
+            out.append((tid + ":identity", lambda xs=xs, at=at, P=P: P(FnDef("main", [("xs", at, False), ("i", USIZE, False)], at, Block([], xs), pub=True))))
+            out.append((tid + ":index", lambda xs=xs, at=at, et=et, i=i, P=P: P(FnDef("main", [("xs", at, False), ("i", USIZE, False)], et, Block([], Index(xs, i)), pub=True))))
+            out.append((tid + ":let-repeat", lambda x=x, at=at, et=et, n=n, P=P: P(FnDef("main", [("x", et, False), ("c", BOOL, False)], at,
+                                                                                     Block([Let(PVar("ys"), ArrRep(x, n, size_src="N"), annot=at)], Var("ys", at)), pub=True))))
+            out.append((tid + ":loop", lambda xs=xs, at=at, et=et, proj=proj, P=P: P(FnDef("main", [("xs", at, False), ("i", USIZE, False)], U8,
+                                                                                      Block([LetMut("acc", Lit(U8, 0)), For(PVar("e"), xs, [Assign("acc", U8, [], proj(Var("e", et)), "^")])], Var("acc", U8)), pub=True))))
+            W = TStruct("W", [("items", at), ("k", U8)])
+            out.append((tid + ":field", lambda at=at, et=et, W=W, structs=structs, enums=enums, consts=consts: Program(
+                [FnDef("main", [("w", W, False), ("i", USIZE, False)], et, Block([], Index(Field(Var("w", W), "items"), i)), pub=True)], list(structs) + [W], list(enums), list(consts))))
+    return out
+
+
 def plan(ctx):
     items = []
+    for k, (tid, _) in enumerate(const_array_templates()):
+        items.append({"kind": "ctarray", "index": k, "tid": tid, "cap": 20.0})
     fams = families()
     for k, (fid, _) in enumerate(fams):
         for T in TYPES:
@@ -181,14 +222,21 @@ def work(item, drv):
         out["results"].append(rec)
         out["stats"] = st.as_dict()
         return out
-    fid, build = families()[item["family"]]
-    T = ty_by_name(item["ty"])
-    for annotated in (True, False):
-        prog = build(T, annotated)
+    if item["kind"] == "ctarray":
+        ctid, cbuild = const_array_templates()[item["index"]]
+        variants = [(True, cbuild(), ctid + ":annotated")]
+    else:
+        fid, build = families()[item["family"]]
+        T = ty_by_name(item["ty"])
+        variants = [(a, build(T, a), "%s:%s:%s" % (fid, T.name, "annotated" if a else "inferred")) for a in (True, False)]
+    for annotated, prog, tid in variants:
         if prog is None:
             continue
-        tid = "%s:%s:%s" % (fid, T.name, "annotated" if annotated else "inferred")
-        res = tvcore.analyze(drv, prog, dedup=True, cap=item["cap"], stats=st, rng=rng, vectors=2)
+        if item["kind"] == "ctarray":
+            n = int(prog.consts[0][2].replace("usize", ""))
+            res = tvcore.analyze(drv, prog, dedup=True, cap=item["cap"], stats=st, rng=rng, vectors=2, consts="-", const_values={"N": (USIZE, z3.BitVecVal(n, 32))})
+        else:
+            res = tvcore.analyze(drv, prog, dedup=True, cap=item["cap"], stats=st, rng=rng, vectors=2)
         rec = {"id": tid, "status": res["status"], "verdicts": res["verdicts"]}
         out["results"].append(rec)
         rep = {"source": res["src"], "template": tid}
